@@ -137,9 +137,17 @@ func (s RefSpec) Dst(n plumbing.ReferenceName) plumbing.ReferenceName {
 // Reverse returns the RefSpec with source and destination swapped.
 func (s RefSpec) Reverse() RefSpec {
 	spec := string(s)
+
+	// The force marker belongs to the refspec, not to its source: keep it in
+	// front instead of moving it into the destination ("+a:b" -> "+b:a").
+	force := ""
+	if s.IsForceUpdate() {
+		force = refSpecForce
+		spec = spec[len(refSpecForce):]
+	}
 	before, after, _ := strings.Cut(spec, refSpecSeparator)
 
-	return RefSpec(after + refSpecSeparator + before)
+	return RefSpec(force + after + refSpecSeparator + before)
 }
 
 func (s RefSpec) String() string {
